@@ -19,12 +19,12 @@ func (m propMeta) timeout(tier string) time.Duration {
 		if m.ThoroughTO > 0 {
 			return m.ThoroughTO
 		}
-		return 40 * time.Minute
+		return 12 * time.Minute
 	}
 	if m.QuickTO > 0 {
 		return m.QuickTO
 	}
-	return 10 * time.Minute
+	return 4 * time.Minute
 }
 
 var commonAssumptions = []string{
@@ -35,5 +35,13 @@ var commonAssumptions = []string{
 
 var props = map[string]propMeta{
 	"C01": {Level: "exploration", Rule: "case k = PRNG(seed, C01, k): a drawn configuration (cache/gzip/async/lower-case names/extension/index+unique+case subset) and a history of 8-40 steps over insert/update/resave/delete/delete-absent/reinsert/many/bulk/search-delete/delete-all/close-reopen/abandon/create-again/flush/tick; after every step every read path is compared with the model, absent lookups are tried twice, the directory is decoded independently. Non-trivial: >= 2 accepted writes, >= 2 objects stored at once, >= 5 steps; distinct = fingerprint of (configuration, abstract op sequence with outcomes, uuids renamed by slot)",
+		Assumptions: commonAssumptions},
+	"C02": {Level: "exploration", Rule: "case k: a drawn configuration and a content built by a history (inserts, updates that move objects inside indexes, deletes, batches, reopen; shapes empty / one element / all-equal forced every 8th case); then the full search matrix (31 field paths incl. nested, nil-pointer, embedded, promoted; 7 operators; probes = stored values, neighbours, type extremes, absent values) is compared with brute-force evaluation over the model, 40 random And/Or chains of length 2-4 are folded over the model, earlier queries are re-run (queries must be read-only), the index invariant hook is evaluated, and 3 search-deletes are followed by a comparison of the collection. Non-trivial: the matrix was evaluated; distinct = fingerprint of configuration + content history",
+		Assumptions: commonAssumptions},
+	"C03": {Level: "exploration", Rule: "case k: configuration with 1-6 unique fields (int, string with upper/lower, uint8, int64, float64, time, embedded int) and a history biased to conflicts (update onto another object's key, re-save unchanged, delete-then-reuse, reopen-then-reuse, case variants); the model predicts accept/reject of every write (iff), pairwise uniqueness over All() and the index invariant hook are evaluated after every step. Non-trivial: >= 1 write rejected by uniqueness and >= 3 accepted; distinct = fingerprint of configuration + op sequence with outcomes",
+		Assumptions: commonAssumptions},
+	"C04": {Level: "exploration", Rule: "case k: history cut into 2-5 segments; at each cut the full observation (count, all objects, Get/Exist per uuid, 40 random + equality/range probes on every stored 64-bit and time value with result ORDER, AssignIndex of every indexed field) is taken on the old handle, the handle is closed (or abandoned without Close in synchronous mode) and the same observation on a new handle must be identical, and agree with the model that never restarted; then more writes follow. Non-trivial: >= 1 reopen with >= 2 accepted writes; distinct = fingerprint of configuration + op sequence",
+		Assumptions: commonAssumptions},
+	"C07": {Level: "exploration", Rule: "case k: history dominated by InsertOrUpdateMany / InsertOrUpdateBulk (sizes 0-6, offenders at PRNG positions: invalid object, foreign type, conflict with a stored object, conflict between two members, same pointer repeated, updates mixed with inserts; chunk sizes 0,1,2,3,len,len+1); the C07 rule predicts reject / accept / either, the returned count is checked and every read path + sampled searches + the invariant hook must equal the model after each batch. Non-trivial: >= 2 batches of which >= 1 rejected; distinct = fingerprint of configuration + op sequence with outcomes",
 		Assumptions: commonAssumptions},
 }
